@@ -566,4 +566,67 @@ theorem aroundL_getElem?_gap {α} (L X Y : List α) (f gf gt t j : Nat) (hg : f 
     List.getElem?_append_right (by omega), h1, show f + X.length + j - (f + X.length) = j by omega,
     List.getElem?_append_left (by simp; omega), List.getElem?_take_of_lt hj, List.getElem?_drop]
 
+
+/-! ### a replace-around step whose whole range moved unchanged -/
+
+/-- a window of the kept gap inside the token list of a replace-around step's result -/
+theorem aroundL_window_gap {α} (L X Y : List α) (f gf gt t j n : Nat) (hg : f ≤ gf ∧ gf ≤ gt ∧ gt ≤ t)
+    (hl : t ≤ L.length) (hj : j + n ≤ gt - gf) :
+    ((aroundL L f gf gt t X Y).drop (f + X.length + j)).take n = (L.drop (gf + j)).take n := by
+  apply List.ext_getElem?
+  intro i
+  by_cases hi : i < n
+  · rw [List.getElem?_take_of_lt hi, List.getElem?_take_of_lt hi, List.getElem?_drop, List.getElem?_drop,
+      show f + X.length + j + i = f + X.length + (j + i) by omega,
+      aroundL_getElem?_gap L X Y f gf gt t (j + i) hg hl (by omega)]
+    congr 1; omega
+  · rw [List.getElem?_eq_none (by simp; omega), List.getElem?_eq_none (by simp; omega)]
+
+/-- **the replace-around step applies again wherever its whole range `[from, to)` shows the same tokens** between
+    pair-aligned gap ends (generalises `around_again_shifted` / `around_again_same`) -/
+theorem around_again_window (S : Schema) (d d' db dab : Node) (f t gf gt ins p : Nat) (sl : Slice)
+    (st : Bool) (gap inserted : Slice)
+    (hn : fnorm d.kids = true) (hn' : fnorm d'.kids = true)
+    (hgo : f ≤ gf ∧ gf ≤ gt ∧ gt ≤ t) (hl : t ≤ (ftoks d.kids).length)
+    (hl' : p + (t - f) ≤ (ftoks d'.kids).length)
+    (hwin : ((ftoks d'.kids).drop p).take (t - f) = ((ftoks d.kids).drop f).take (t - f))
+    (hal : gf < gt → alignedAt d'.kids (p + (gf - f)) = true ∧ alignedAt d'.kids (p + (gt - f)) = true)
+    (hb : S.apply (.replaceAround f t gf gt sl ins st) d = .ok db)
+    (hgap : d.slice gf gt = .ok gap) (ho1 : gap.openStart = 0) (ho2 : gap.openEnd = 0)
+    (hinst : sl.insertAt S ins gap.content = .ok (some inserted))
+    (hfr : S.fromReplace d' p (p + (t - f)) inserted = .ok dab) :
+    S.apply (.replaceAround p (p + (t - f)) (p + (gf - f)) (p + (gt - f)) sl ins st) d' = .ok dab := by
+  have hgap' : sliceKids d.kids gf gt = .ok gap := hgap
+  -- sub-windows
+  have hsub : ∀ a n, a + n ≤ t - f →
+      ((ftoks d'.kids).drop (p + a)).take n = ((ftoks d.kids).drop (f + a)).take n := by
+    intro a n han
+    have := congrArg (fun l => (l.drop a).take n) hwin
+    simp only [List.drop_take, List.take_take, List.drop_drop] at this
+    first
+      | exact this
+      | (rw [Nat.min_eq_left (by omega), Nat.min_eq_left (by omega)] at this; exact this)
+      | (rw [Nat.min_eq_left (by omega)] at this; exact this)
+  have hst : st = true →
+      contentBetween d' p (p + (gf - f)) = some false ∧
+      contentBetween d' (p + (gt - f)) (p + (t - f)) = some false := by
+    intro hstt
+    subst hstt
+    exact struct_checks_again d d' f t gf gt _ _ _ _ hn hn' hgo (by rw [← ftoks_length]; omega)
+      (by rw [← ftoks_length]; omega) rfl (by omega) (by omega)
+      (by have := hsub 0 (gf - f) (by omega); simpa using this)
+      (by have := hsub (gt - f) (t - gt) (by omega)
+          rwa [show f + (gt - f) = gt by omega] at this)
+      (apply_replaceAround_struct S d db f t gf gt sl ins hb)
+  refine around_applies_of_parts S d' dab _ _ _ _ sl ins st gap inserted ?_ ho1 ho2 hinst hfr hst
+  show sliceKids d'.kids _ _ = .ok gap
+  have := slice_again d.kids d'.kids gf gt (p + (gf - f)) gap hn hn' hgo.2.1
+    (by rw [← ftoks_length]; omega) (by rw [← ftoks_length]; omega) hgap' ho1 ho2
+    (by have := hsub (gf - f) (gt - gf) (by omega)
+        rwa [show f + (gf - f) = gf by omega] at this)
+    (fun hlt => by
+      obtain ⟨a1, a2⟩ := hal hlt
+      exact ⟨a1, by rwa [show p + (gf - f) + (gt - gf) = p + (gt - f) by omega]⟩)
+  rwa [show p + (gf - f) + (gt - gf) = p + (gt - f) by omega] at this
+
 end PM
